@@ -39,6 +39,10 @@ FAULTS = [
     _f("(fn(a) a + undefined_zz_q)(1)", "undefined_zz_q"), _f("length(1, 2, 3)", "length ("), _f("length(zz = 1)", "length ("),
     _f("return undefined_zz_q", "undefined_zz_q"), _f("def y_q = undefined_zz_q", "undefined_zz_q"), _f("[1, 2][0] = undefined_zz_q", "undefined_zz_q"),
     _f("[3, 2][5] = 1", "[ 5 ="),
+    # the later operation of a chain on one precedence level: it is reported at its own operator (or at the first token of the construct),
+    # not at an earlier operator of the chain
+    _f("71 + 2 - 'x'", "71 -"), _f("72 + 2 + 5 - 'x' + 1", "72 -"), _f("73 * 3 / 'x'", "73 /"), _f("74 * 3 * 2 % 'x'", "74 %"),
+    _f("75 + 2 * 3 - [] - 1", "75 -"), _f("76 - 2 - undefined_zz_q", "undefined_zz_q"),
     # a break / continue with no loop around it (top level, or the body of a function called from another line)
     _f("break", "break"), _f("continue", "continue"), _f("if TRUE then break", "break"), _f("if 1 == 1 then do 1; continue end", "continue"),
     _f("do 1; break end", "break"), _f("do continue catch all 2 end", "continue"),
